@@ -142,6 +142,69 @@ fn fan_multis() -> Vec<(String, P)> {
     out
 }
 
+/// Layered dependency graphs whose operations are NUMBERED OUT OF ORDER (a fixed list, not a sample of anything):
+/// w x h grids in which node (r, c) feeds (r+1, c) and (r+1, c+1 mod w) through unary operations, and sparse DAGs on
+/// m nodes whose arcs are drawn by a fixed linear congruential sequence; each with the operations listed as built,
+/// backwards, and along i -> a*i + b (mod #operations) for several multipliers. Frontiers of three and more
+/// operations then arrive in orders that are neither ascending nor descending.
+pub fn shuffled_dags() -> Vec<(String, P)> {
+    let mut out: Vec<(String, P)> = vec![];
+    let gcd = |mut a: usize, mut b: usize| {
+        while b != 0 {
+            let t = a % b;
+            a = b;
+            b = t;
+        }
+        a
+    };
+    let mut push_all = |name: String, nodes: usize, edges: Vec<PEdge<u8>>, s: Vec<usize>, t: Vec<usize>, out: &mut Vec<(String, P)>| {
+        let m = edges.len();
+        let f = P { nodes: vec![0; nodes], edges, s, t };
+        let idn: Vec<usize> = (0..nodes).collect();
+        out.push((format!("{}/as-built", name), f.clone()));
+        if m >= 2 {
+            out.push((format!("{}/backwards", name), f.renumber(&idn, &(0..m).rev().collect::<Vec<_>>())));
+            for a in [3usize, 5, 7, 11, 13] {
+                if gcd(a, m) == 1 {
+                    for b in [0usize, 1] {
+                        let perm: Vec<usize> = (0..m).map(|i| (a * i + b) % m).collect();
+                        out.push((format!("{}/times-{}-plus-{}", name, a, b), f.renumber(&idn, &perm)));
+                    }
+                }
+            }
+        }
+    };
+    for (w, h) in [(3usize, 3usize), (3, 5), (4, 4), (5, 3), (2, 7)] {
+        let id = |r: usize, c: usize| r * w + c;
+        let mut e = vec![];
+        for r in 0..h - 1 {
+            for c in 0..w {
+                e.push(edge(0, vec![id(r, c)], vec![id(r + 1, c)]));
+                e.push(edge(0, vec![id(r, c)], vec![id(r + 1, (c + 1) % w)]));
+            }
+        }
+        push_all(format!("grid({}x{})", w, h), w * h, e, (0..w).collect(), (0..w).map(|c| id(h - 1, c)).collect(), &mut out);
+    }
+    for m in [8usize, 14, 20] {
+        for seed in 0..6u64 {
+            // arcs i -> j (i < j in the hidden topological order), about 1.3 per node, from a fixed LCG
+            let mut x = 0x9E37_79B9_7F4A_7C15u64.wrapping_mul(seed + 1) ^ (m as u64);
+            let mut next = || {
+                x = x.wrapping_mul(6364136223846793005).wrapping_add(1442695040888963407);
+                (x >> 33) as usize
+            };
+            let mut e = vec![];
+            for _ in 0..(m * 13 / 10) {
+                let i = next() % (m - 1);
+                let j = i + 1 + next() % (m - 1 - i);
+                e.push(edge(0, vec![i], vec![j]));
+            }
+            push_all(format!("lcg-dag({},{})", m, seed), m, e, vec![], vec![], &mut out);
+        }
+    }
+    out
+}
+
 /// diagrams that are monogamous except (possibly) at one node whose in- or out-degree is k, reached through one wide
 /// hyperedge (multiplicity k) or through k hyperedges; with that node on or off the interface. For the degree and
 /// monogamy predicates (every other node is fine, so the answer hinges on the one node).
@@ -299,6 +362,15 @@ pub fn programs_at(ks: &[usize], gaps: bool) -> Vec<(String, P)> {
         }
         e.push(edge(2, vec![1, w], vec![nn]));
         add(format!("mixed-depth({})", k), nn + 1, e, vec![0], vec![nn], &mut out);
+        // more operations than nodes: k constants, k negations of them (also outputs) and k discards reading the negated
+        // values, listed constants - discards - negations, so that operations numbered beyond the node count have
+        // dependencies
+        {
+            let mut e: Vec<PEdge<u8>> = (0..k).map(|i| edge(6, vec![], vec![i])).collect();
+            e.extend((0..k).map(|i| edge(7, vec![k + i], vec![])));
+            e.extend((0..k).map(|i| edge(3, vec![i], vec![k + i])));
+            add(format!("const-sink-neg({})", k), 2 * k, e, vec![], (k..2 * k).collect(), &mut out);
+        }
         // k constants feeding k discards and k outputs
         let mut e: Vec<PEdge<u8>> = (0..k).map(|i| edge(6, vec![], vec![i])).collect();
         e.extend((0..k).map(|i| edge(3, vec![i], vec![k + i])));
